@@ -42,9 +42,12 @@ class WriterPB:
         self.repo = repo
         self.mod = repo.mod(WP)
         self.builders = {}
+        # a private class that only serves as a base of others (shared template code) is not a builder of its own: its
+        # subclasses carry the concrete copies (normal form, sa/unroll.py)
+        templates = {b for c in self.mod.classes.values() for b in c.bases if b.startswith("_") and b in self.mod.classes}
         for c in self.mod.classes.values():
             f = c.methods.get("create_message")
-            if f is not None:
+            if f is not None and c.name not in templates:
                 self.builders[c.name] = self._extract(c, f)
 
     def _extract(self, cls, fn):
